@@ -11,6 +11,10 @@ pub(crate) static mut READS_DONE: u8 = 0;
 pub(crate) static mut EOF_WHEN_EXHAUSTED: bool = false;
 /// Set by harnesses whose reference model says "no pause here": asking for a command is then a violation.
 pub(crate) static mut READ_FORBIDDEN: bool = false;
+/// Optional concretisation of the generated command's form (one harness per form keeps symbolic execution
+/// out of the other arms: a symbolic selector makes every arm of run_command feasible for the symbolic executor).
+pub(crate) static mut FIX_LKIND: Option<u8> = None;
+pub(crate) static mut FIX_IS_REG: Option<bool> = None;
 
 pub(crate) const C_HELP: u32 = 1 << 0;
 pub(crate) const C_STEPOVER: u32 = 1 << 1;
@@ -140,8 +144,19 @@ impl<'a> Command<'a> {
             READS_LEFT -= 1;
             READS_DONE += 1;
             let mut r = any_rec(ALLOWED);
-            if ALLOWED == C_QUIT {
-                r.sel = 13;
+            // a single-command mask yields a concrete selector
+            let mut b = 0u8;
+            while b < 18 {
+                if ALLOWED == (1u32 << b) {
+                    r.sel = b;
+                }
+                b += 1;
+            }
+            if let Some(k) = FIX_LKIND {
+                r.lkind = k;
+            }
+            if let Some(k) = FIX_IS_REG {
+                r.is_reg = k;
             }
             LAST = Some(r);
             Some(command_of(&r))
@@ -151,6 +166,12 @@ impl<'a> Command<'a> {
 
 pub(crate) fn reads_done() -> u8 {
     unsafe { READS_DONE }
+}
+pub(crate) fn fix_form(lkind: Option<u8>, is_reg: Option<bool>) {
+    unsafe {
+        FIX_LKIND = lkind;
+        FIX_IS_REG = is_reg;
+    }
 }
 pub(crate) fn forbid_reads(f: bool) {
     unsafe {
